@@ -4,6 +4,7 @@ CONSTANTS
   MaxLen = 3
   Blocks <- BigBlocks
   MaxBlocks = 5
+  BlockAfter = 3
   Dump = TRUE
 INVARIANT AutomatonConsistent
 INVARIANT StrToNumberOK
